@@ -51,11 +51,18 @@ pub async fn open_file(path: impl AsRef<Path>) -> Result<Client> {
         path = %path.as_ref().display(),
         "database::open_file",
     );
-    Ok(ClientBuilder::new()
+    let client = ClientBuilder::new()
         .path(path.as_ref())
         .journal_mode(JournalMode::Wal)
         .open()
-        .await?)
+        .await?;
+    // Overwrite deleted content with zeros so that encrypted
+    // rows removed when a folder key changes do not linger
+    // in unused space of the database file
+    client
+        .conn(|conn| conn.pragma_update(None, "secure_delete", "ON"))
+        .await?;
+    Ok(client)
 }
 
 /// Open a database file from a specific journal mode.
